@@ -4,6 +4,7 @@ import (
 	"encoding/hex"
 	"errors"
 	"math"
+	"math/big"
 	"net/url"
 	"regexp"
 	"strconv"
@@ -113,16 +114,13 @@ func builtinGlobalParseInt(call FunctionCall) Value {
 	value, err := strconv.ParseInt(input, radix, 64)
 	if err != nil {
 		if errors.Is(err, strconv.ErrRange) {
-			base := float64(base)
-			// Could just be a very large number (e.g. 0x8000000000000000)
-			var value float64
-			for _, chr := range input {
-				digit := float64(digitValue(chr))
-				if digit >= base {
-					return NaNValue()
-				}
-				value = value*base + digit
+			// Could just be a very large number (e.g. 0x8000000000000000): convert the exact
+			// integer once, accumulating in a float64 would round at every digit.
+			number, ok := new(big.Int).SetString(input, radix)
+			if !ok {
+				return NaNValue()
 			}
+			value, _ := new(big.Float).SetInt(number).Float64()
 			if negative {
 				value *= -1
 			}
@@ -131,6 +129,9 @@ func builtinGlobalParseInt(call FunctionCall) Value {
 		return NaNValue()
 	}
 	if negative {
+		if value == 0 {
+			return float64Value(math.Copysign(0, -1)) // sign × number (15.1.2.2 step 16) is -0
+		}
 		value *= -1
 	}
 
